@@ -130,22 +130,11 @@ Definition build_debug_expr (name : string) (src : fields) (fs : list fentry) (u
       Ok (DbgFields name (shape_of src) (map fld_of used), push_fields used ub KDebug w)
   end.
 
-(** `may_be_unsized`: a `?Sized` bound is declared, or the type is `str`, a slice or a trait object *)
-Definition is_maybe_bound (b : tbound) : bool :=
-  match b with TBTrait true _ _ => true | _ => false end.
-Definition may_be_unsized (g : generics) (t : ty) : bool :=
-  match t with
-  | TySlice _ | TyDyn _ => true
-  | TyPath None false [Seg "str" SANone] => true
-  | _ => false
-  end
-  || existsb (fun p => match p with GPTy _ bs _ => existsb is_maybe_bound bs | _ => false end) (g_params g)
-  || existsb (fun w => match w with WPTy _ bs => existsb is_maybe_bound bs | _ => false end) (g_where g).
-
-(** the last field is passed as `&&self.x` when it may be unsized *)
+(** the last field of a struct may be unsized, which cannot be told from its tokens (an alias, parentheses): it is
+    always passed as `&&self.x`, as the standard derive does *)
 Definition last_double_ref (s : item_struct) (fs : list fentry) : option nat :=
   match last_opt fs with
-  | Some f => if may_be_unsized (s_generics s) (f_ty (fe_field f)) then Some (fe_index f) else None
+  | Some f => Some (fe_index f)
   | None => None
   end.
 
